@@ -30,8 +30,8 @@ EXTENDS Naturals, FiniteSets, Sequences, TLC
 CONSTANT MaxFaults      \* number of effects that may fail in one run
 
 VARIABLES
-  cfg,        \* [nt, nc, dest, backed, par, shard, pre]
-  files,      \* destination file(s): sequence of [data, mode]; 1 file, or one per tensor when sharded
+  cfg,        \* [nt, nc, dest, backed, par, shard, pre, lim, sh]
+  files,      \* data files of the directory: sequence of [data, mode]; file 1 = plain name, 2.. = numbered shards
   link,       \* the requested path is (still) a symbolic link to the destination
   tdir,       \* the temporary directory exists
   tfile,      \* content of the temporary file, "Absent" if none
@@ -45,7 +45,7 @@ VARIABLES
   mapped,     \* mapped[t]: ExternalTensor t (backed by the destination) holds a memory map
   valid,      \* valid[t]:  ExternalTensor t has not been invalidated
   pc, sub,    \* program counter of the saving thread; step inside the serial tensor loop
-  cur,        \* destination file being produced
+  cur,        \* shard being produced (its destination file is CurF)
   nxt, chk,   \* serial writer: current tensor and chunk
   exc,        \* an exception is propagating
   out,        \* "running" | "ok" | "raised" | "crashed"
@@ -64,9 +64,31 @@ Workers == {1, 2}
 -------------------------------------------------------------------------------
 (* Layout                                                                    *)
 
-NChunksC(c, t) == IF t \in c.backed THEN 1 ELSE c.nc      \* an ExternalTensor is copied by one copy_file_range
-NFilesC(c)     == IF c.shard THEN c.nt ELSE 1
-TensC(c, f)    == IF c.shard THEN {f} ELSE 1..c.nt
+NChunksOf(nc, backed, t) == IF t \in backed THEN 1 ELSE nc  \* an ExternalTensor is copied by one copy_file_range
+NChunksC(c, t) == NChunksOf(c.nc, c.backed, t)
+
+(* _shard_tensors (no alignment), sizes and limit in chunks: tensors stay in declaration order; a new
+   shard is started when the next tensor would exceed the limit, but a shard is never left empty.
+   The result maps every tensor to its shard; the number of shards is the last entry.            *)
+RECURSIVE Greedy(_, _, _, _, _, _, _)
+Greedy(nt, nc, backed, lim, t, s, size) ==
+  IF t > nt THEN <<>>
+  ELSE LET n == NChunksOf(nc, backed, t) IN
+       IF size + n > lim /\ size > 0
+       THEN <<s + 1>> \o Greedy(nt, nc, backed, lim, t + 1, s + 1, n)
+       ELSE <<s>> \o Greedy(nt, nc, backed, lim, t + 1, s, size + n)
+ShardAssign(nt, nc, backed, shard, lim) ==
+  IF shard THEN Greedy(nt, nc, backed, lim, 1, 1, 0) ELSE [t \in 1..nt |-> 1]
+
+(* Destination files.  A single-file save and a sharded save that yields ONE shard write the plain
+   name (file 1).  A sharded save with n > 1 shards writes the numbered names (files 2..n+1); the
+   plain-name file (file 1) is then not a destination, but it is still a file of the directory.  *)
+NShardsC(c)        == c.sh[c.nt]
+Numbered(c)        == c.shard /\ NShardsC(c) > 1
+NFilesC(c)         == IF Numbered(c) THEN 1 + NShardsC(c) ELSE 1
+DestFileC(c, s)    == IF Numbered(c) THEN 1 + s ELSE 1
+ShardOfFileC(c, f) == IF Numbered(c) THEN f - 1 ELSE 1
+TensC(c, s)        == {t \in 1..c.nt : c.sh[t] = s}
 
 RECURSIVE SumChunksC(_, _)
 SumChunksC(c, S) == IF S = {} THEN 0
@@ -78,13 +100,18 @@ NewOfC(c, f) == [k |-> "data", sz |-> TotalC(c, f), ch |-> AllChC(c, f)]
 OffC(c, f, t, j) == SumChunksC(c, {u \in TensC(c, f) : u < t}) + j - 1
 
 NChunks(t) == NChunksC(cfg, t)
-Tens(f)    == TensC(cfg, f)
-FirstT(f)  == IF cfg.shard THEN f ELSE 1
-LastT(f)   == IF cfg.shard THEN f ELSE cfg.nt
+Tens(s)    == TensC(cfg, s)
+FirstT(s)  == CHOOSE t \in Tens(s) : \A u \in Tens(s) : t <= u
+LastT(s)   == CHOOSE t \in Tens(s) : \A u \in Tens(s) : t >= u
+CurF       == DestFileC(cfg, cur)                       \* destination file of the shard being produced
 UsePar     == cfg.par /\ Cardinality(Tens(cur)) > 1
 MaxOf(a, b) == IF a > b THEN a ELSE b
+(* ExternalTensors among the tensors being written whose backing file IS the current destination *)
+BackedHere == IF CurF = 1 THEN cfg.backed \cap Tens(cur) ELSE {}
 
-InitClass(c, f) == IF c.shard THEN (IF f \in c.pre THEN "Old" ELSE "Absent")
+(* what is in the directory before the save: dest says whether the plain-name file exists,
+   pre which numbered shard names exist                                                        *)
+InitClass(c, f) == IF Numbered(c) /\ f > 1 THEN (IF (f - 1) \in c.pre THEN "Old" ELSE "Absent")
                    ELSE (IF c.dest = "absent" THEN "Absent" ELSE "Old")
 
 WellFormedCfg(c) ==
@@ -92,8 +119,10 @@ WellFormedCfg(c) ==
   /\ c.dest \in {"absent", "file", "symlink"}
   /\ c.backed \subseteq 1..c.nt /\ (c.backed # {} => c.dest # "absent")
   /\ c.par \in BOOLEAN /\ c.shard \in BOOLEAN
-  /\ (c.shard => c.dest = "absent" /\ c.backed = {} /\ c.pre \subseteq 1..c.nt)
-  /\ (~c.shard => c.pre = {})
+  /\ c.sh = ShardAssign(c.nt, c.nc, c.backed, c.shard, c.lim)
+  /\ (c.shard => /\ c.dest \in {"absent", "file"} /\ ~c.par /\ c.lim >= 1
+                  /\ c.pre \subseteq (IF Numbered(c) THEN 1..NShardsC(c) ELSE {}))
+  /\ (~c.shard => c.pre = {} /\ c.lim = 0)
 
 -------------------------------------------------------------------------------
 (* Initial state of a save for configuration c                               *)
@@ -139,7 +168,7 @@ Goto(p) == Ctl(p, sub, cur, nxt, chk)
 
 CheckExists(r) ==
   /\ pc = "precheck" /\ r = "ok"
-  /\ IF cfg.pre # {}
+  /\ IF \E s \in 1..NShardsC(cfg) : files[DestFileC(cfg, s)].data.k # "absent"
      THEN Bk("CheckExists", 0, 0, r, TRUE) /\ Goto("raise")      \* FileExistsError, nothing touched
      ELSE Bk("CheckExists", 0, 0, r, FALSE) /\ Goto("mktmp")
   /\ UNCHANGED <<cfg, fsv, hv, wv, tv, out, cleanupFail>>
@@ -320,19 +349,19 @@ NextBacked(S) == CHOOSE t \in S : \A u \in S : t <= u
 
 ReleaseMap(t, r) ==
   /\ pc = "release" /\ r = "ok"
-  /\ LET S == {u \in cfg.backed : mapped[u]} IN S # {} /\ t = NextBacked(S)
+  /\ LET S == {u \in BackedHere : mapped[u]} IN S # {} /\ t = NextBacked(S)
   /\ mapped' = [mapped EXCEPT ![t] = FALSE]
   /\ Bk("ReleaseMap", t, 0, r, FALSE)
   /\ UNCHANGED <<cfg, fsv, hv, wv, valid, ctl, out, cleanupFail>>
 
 ReleaseDone ==
-  /\ pc = "release" /\ \A u \in cfg.backed : ~mapped[u]
-  /\ Goto(IF files[cur].data.k = "absent" THEN "replace" ELSE "copymode")     \* os.path.exists(destination)
+  /\ pc = "release" /\ \A u \in BackedHere : ~mapped[u]
+  /\ Goto(IF files[CurF].data.k = "absent" THEN "replace" ELSE "copymode")     \* os.path.exists(destination)
   /\ UNCHANGED <<cfg, fsv, hv, wv, tv, exc, out, faults, firstFail, cleanupFail, last>>
 
 CopyMode(r) ==
   /\ pc = "copymode" /\ r \in {"ok", "fail"}
-  /\ IF r = "ok" THEN tmode' = files[cur].mode /\ Goto("replace") ELSE tmode' = tmode /\ Goto("rmfile")
+  /\ IF r = "ok" THEN tmode' = files[CurF].mode /\ Goto("replace") ELSE tmode' = tmode /\ Goto("rmfile")
   /\ Bk("CopyMode", cur, 0, r, r = "fail")
   /\ UNCHANGED <<cfg, files, link, tdir, tfile, hv, wv, tv, out, cleanupFail>>
 
@@ -341,7 +370,7 @@ Replace(r) ==
   /\ pc = "replace" /\ r \in {"ok", "fail"}
   /\ IF r = "ok"
      THEN /\ tfile.k # "absent"
-          /\ files' = [files EXCEPT ![cur] = [data |-> tfile, mode |-> tmode]]
+          /\ files' = [files EXCEPT ![CurF] = [data |-> tfile, mode |-> tmode]]
           /\ tfile' = AbsentC /\ tmode' = "none"
      ELSE UNCHANGED <<files, tfile, tmode>>
   /\ Bk("Replace", cur, 0, r, r = "fail")
@@ -372,14 +401,14 @@ RmTmpDir(r) ==
 
 Invalidate(t, r) ==
   /\ pc = "invalidate" /\ r = "ok"
-  /\ LET S == {u \in cfg.backed : valid[u]} IN S # {} /\ t = NextBacked(S)
+  /\ LET S == {u \in BackedHere : valid[u]} IN S # {} /\ t = NextBacked(S)
   /\ valid' = [valid EXCEPT ![t] = FALSE]
   /\ Bk("Invalidate", t, 0, r, FALSE)
   /\ UNCHANGED <<cfg, fsv, hv, wv, mapped, ctl, out, cleanupFail>>
 
 InvalidateDone ==
-  /\ pc = "invalidate" /\ \A u \in cfg.backed : ~valid[u]
-  /\ IF cfg.shard /\ cur < cfg.nt THEN Ctl("mktmp", "cb", cur + 1, nxt, 1) ELSE Goto("model")
+  /\ pc = "invalidate" /\ \A u \in BackedHere : ~valid[u]
+  /\ IF cur < NShardsC(cfg) THEN Ctl("mktmp", "cb", cur + 1, nxt, 1) ELSE Goto("model")
   /\ UNCHANGED <<cfg, fsv, hv, wv, tv, exc, out, faults, firstFail, cleanupFail, last>>
 
 (* serialising and writing the model file (open, write, close): no effect on the data file(s);
@@ -488,7 +517,7 @@ Next ==
 
 DataClass(f) == LET d == files[f].data IN
                 IF d.k = "absent" THEN "Absent" ELSE IF d.k = "old" THEN "Old"
-                ELSE IF d = NewOfC(cfg, f) THEN "New" ELSE "Partial"
+                ELSE IF d = NewOfC(cfg, ShardOfFileC(cfg, f)) THEN "New" ELSE "Partial"
 
 Obs == [files |-> [f \in 1..NFilesC(cfg) |-> DataClass(f)],
         modes |-> [f \in 1..NFilesC(cfg) |-> files[f].mode],
@@ -509,7 +538,10 @@ P_FailKeepsOld(c, o) ==
 
 P_InvalidateOnlyIfReplaced(c, o) == o.invalid # {} => o.files[1] = "New"
 
-P_ShardNeverOverwrites(c, o) == c.shard => \A f \in c.pre : o.files[f] = "Old"
+(* a sharded save (max_shard_size_bytes set) never changes a pre-existing file: neither a numbered
+   shard name nor -- when everything fits one shard -- the plain name                            *)
+P_ShardNeverOverwrites(c, o) ==
+  c.shard => \A f \in DOMAIN o.files : InitClass(c, f) = "Old" => o.files[f] = "Old"
 
 (* not part of the statement (weaker reading): a destination that did not exist is absent or complete *)
 D_AbsentOrNew(c, o) == \A f \in DOMAIN o.files : InitClass(c, f) = "Absent" => o.files[f] \in {"Absent", "New"}
@@ -527,6 +559,7 @@ TypeOK ==
   /\ (tfile.k # "absent" => tdir)
   /\ (hmain => tfile.k # "absent")
   /\ link = (cfg.dest = "symlink")
-ReturnsClean == out = "ok" => (~tdir /\ tfile.k = "absent" /\ \A f \in 1..NFilesC(cfg) : DataClass(f) = "New")
+ReturnsClean == out = "ok" => (~tdir /\ tfile.k = "absent"
+                               /\ \A s \in 1..NShardsC(cfg) : DataClass(DestFileC(cfg, s)) = "New")
 MapsReleasedBeforeReplace == \A t \in cfg.backed : (DataClass(1) = "New" => ~mapped[t])
 =============================================================================
